@@ -177,7 +177,7 @@ pub fn value_to_tokens(value: &ASN1Value) -> Result<String, GeneratorError> {
                 s.pop();
                 s + "\""
             }),
-        ASN1Value::Time(_) => todo!(),
+        ASN1Value::Time(t) => Ok(format!(r#""{t}""#)),
         ASN1Value::LinkedArrayLikeValue(seq) => seq
             .iter()
             .try_fold(String::from("["), |mut acc, v| {
@@ -200,7 +200,10 @@ pub fn value_to_tokens(value: &ASN1Value) -> Result<String, GeneratorError> {
             value,
         } => Ok(value.to_string()),
         ASN1Value::LinkedCharStringValue(_, value) => Ok(format!(r#""{value}""#)),
-        ASN1Value::All => todo!(),
+        ASN1Value::All => Err(GeneratorError {
+            details: "The value ALL cannot be rendered.".into(),
+            ..Default::default()
+        }),
     }
 }
 
